@@ -64,6 +64,7 @@ type link struct {
 	txMu     sync.Mutex // guards the sender-side state when several tasks send on one link
 	hbSent   []sentItem
 	keptAlive bool
+	apCount   int
 	nodeGone  bool
 	closeSeen bool
 	lastSend  time.Duration
@@ -169,6 +170,11 @@ func (l *link) send(kind int, split bool) error {
 		count("fault:peer-bad-checksum")
 	case sendBadSignature:
 		it.f, it.index = l.mkFrame()
+		if dsim.Choose(2) == 1 {
+			// a forgery dated (far) ahead of the real clock
+			it.f.Timestamp += uint64(1_000_001 + dsim.Choose(2_000_000_000))
+			count("fault:peer-forged-future-timestamp")
+		}
 		it.f.Signature[dsim.Choose(6)] ^= byte(1 + dsim.Choose(255))
 		it.bytes = it.f.Encode()
 		count("fault:peer-bad-signature")
